@@ -247,6 +247,14 @@ class SchemaMapper:
         if prefix:
             return obj.ns_map.get(prefix)
 
+        if obj.is_ref:
+            # An unprefixed reference resolves to the default namespace in scope
+            default_namespace = next(
+                (ns for pfx, ns in obj.ns_map.items() if not pfx and ns), None
+            )
+            if default_namespace:
+                return default_namespace
+
         if obj.is_qualified and (
             not obj.is_ref
             or not target_namespace
